@@ -30,7 +30,7 @@ Proof. unfold posts_undecodable_event, is_promoted. destruct (ms_promoted m) as 
 Lemma apply_dtx_fixed_total i t : exists x, apply_dtx dcfg_fixed i t = Ret x.
 Proof.
   unfold apply_dtx. destruct i; [eauto|].
-  destruct (dt_body t) as [| |ok| |ok|bc|beh|evm_ok lg bc| | |]; try (eexists; reflexivity).
+  destruct (dt_body t) as [| |ok| |ok|bc|beh|evm_ok lg bc| | | |]; try (eexists; reflexivity).
   - (* BBvm *)
     destruct (invoke dcfg_fixed bc) as [ran ok] eqn:Ei.
     assert (Hw : call_wipes dcfg_fixed bc = false) by (destruct bc; reflexivity).
@@ -122,18 +122,18 @@ Proof. intro H. unfold invoke. rewrite H. reflexivity. Qed.
 (** crash witnesses, one per flag (all other flags off) *)
 
 Definition with_promoted := {| d_promoted_dispatch := true; d_evm_wipes_revisions := false; d_checkproof_nil_err := false;
-                              d_nil_validator := false; d_evm_interchain_norecover := false; d_nil_address := false |}.
+                              d_nil_validator := false; d_evm_interchain_norecover := false; d_nil_to := false; d_nil_from := false |}.
 Definition with_wipe := {| d_promoted_dispatch := false; d_evm_wipes_revisions := true; d_checkproof_nil_err := false;
-                          d_nil_validator := false; d_evm_interchain_norecover := false; d_nil_address := false |}.
+                          d_nil_validator := false; d_evm_interchain_norecover := false; d_nil_to := false; d_nil_from := false |}.
 Definition with_nilerr := {| d_promoted_dispatch := false; d_evm_wipes_revisions := false; d_checkproof_nil_err := true;
-                            d_nil_validator := false; d_evm_interchain_norecover := false; d_nil_address := false |}.
+                            d_nil_validator := false; d_evm_interchain_norecover := false; d_nil_to := false; d_nil_from := false |}.
 Definition with_nilval := {| d_promoted_dispatch := false; d_evm_wipes_revisions := false; d_checkproof_nil_err := false;
-                            d_nil_validator := true; d_evm_interchain_norecover := false; d_nil_address := false |}.
+                            d_nil_validator := true; d_evm_interchain_norecover := false; d_nil_to := false; d_nil_from := false |}.
 Definition with_evmic := {| d_promoted_dispatch := false; d_evm_wipes_revisions := false; d_checkproof_nil_err := false;
-                           d_nil_validator := false; d_evm_interchain_norecover := true; d_nil_address := false |}.
+                           d_nil_validator := false; d_evm_interchain_norecover := true; d_nil_to := false; d_nil_from := false |}.
 
 Definition with_niladdr := {| d_promoted_dispatch := false; d_evm_wipes_revisions := false; d_checkproof_nil_err := false;
-                             d_nil_validator := false; d_evm_interchain_norecover := false; d_nil_address := true |}.
+                             d_nil_validator := false; d_evm_interchain_norecover := false; d_nil_to := true; d_nil_from := true |}.
 
 Definition sig_post_interchain : msig :=
   {| ms_params := [KIface]; ms_variadic := false; ms_response := false; ms_promoted := Some SeEvent |}.
@@ -165,8 +165,8 @@ Theorem evm_interchain_refuted :
 Proof. reflexivity. Qed.
 
 Theorem nil_address_refuted :
-  exec_block with_niladdr 7 [plain BNilAddress true] = Crash.
-Proof. reflexivity. Qed.
+  exec_block with_niladdr 7 [plain BNilTo true] = Crash /\ exec_block with_niladdr 7 [plain BNilFrom true] = Crash.
+Proof. split; reflexivity. Qed.
 
 (** non-vacuity: a hostile block under the repaired behaviour *)
 Example total_example :
